@@ -42,9 +42,9 @@ def plan(tier, seed):
     for n in (1, 2, 3):
         for so in fix.orders(n):
             specs.append(dict(kind='all', n=n, source=so, seed=seed))
-    for s in range(12 if tier == 'thorough' else 6):
+    for s in range(32 if tier == 'thorough' else 6):
         specs.append(dict(kind='random', seed=seed * 100 + s,
-                          examples=600 if tier == 'thorough' else 120))
+                          examples=2500 if tier == 'thorough' else 120))
     return specs
 
 
